@@ -166,3 +166,32 @@ Definition dstep (drain : option nat) (t : dthread) (sh : dshared) : dthread * d
 (* thread 0 = the remaining direction, thread 1 = the clock *)
 Definition drain_run (drain : option nat) (m : nat) (sched : list nat) : dshared * list dthread :=
   run _ _ (dstep drain) ({| d_now := 0; d_got := 0 |}, [DResp m; DClock]) sched.
+
+(* -------------------------------------------------------------------------------------------------
+   The token wait of waitForTokens and the closure of the bridge: a direction that holds a chunk has w ticks of pacing left;
+   the other side (thread 1) closes the bridge (cancels the bridge context) at some point.
+     CancellableWait = rateLimiter.WaitN(b.Ctx(), k): a cancelled context ends the wait at the direction's next step
+     SleepWait       = ReserveN + time.Sleep (seeded C02-18): the direction sleeps through every remaining tick *)
+Inductive wait_policy := CancellableWait | SleepWait.
+Inductive wthread := WWaiting (w : nat) | WExited | WCloser (fired : bool).
+Definition wstep (p : wait_policy) (t : wthread) (cancelled : bool) : wthread * bool :=
+  match t with
+  | WCloser _ => (WCloser true, true)
+  | WWaiting w =>
+      match p, cancelled, w with
+      | CancellableWait, true, _ => (WExited, cancelled)
+      | _, _, O => (WExited, cancelled)
+      | _, _, S k => (WWaiting k, cancelled)
+      end
+  | WExited => (t, cancelled)
+  end.
+Definition wait_run (p : wait_policy) (w : nat) (sched : list nat) : bool * list wthread :=
+  run _ _ (wstep p) (false, [WWaiting w; WCloser false]) sched.
+
+(* kept only to be refuted: a copy loop that, when a Write fails with a transient timeout, goes on with the NEXT read
+   (seeded C02-16): what arrives is the concatenation of the chunks whose write did not fail *)
+Fixpoint skip_failed_writes (chunks : list (list nat * bool)) : list nat :=
+  match chunks with
+  | [] => []
+  | (d, failed) :: r => (if failed then [] else d) ++ skip_failed_writes r
+  end.
